@@ -455,6 +455,28 @@ pub fn build_cal(spec: &CalSpec) -> Option<AnyCal> {
     }))
 }
 
+/// the forms in which a described calendar is exercised: as built, and - always when it carries settlement
+/// calendars (a name with '|', a union with a settlement list), else for one description in four - also inside
+/// the `CalType` container
+pub fn build_cal_forms(spec: &CalSpec) -> Option<Vec<AnyCal>> {
+    use rateslib::calendars::CalType;
+    let has_settlement = match spec {
+        CalSpec::Named(n) => n.contains('|'),
+        CalSpec::Union { settle, .. } => settle.is_some(),
+        _ => false,
+    };
+    let mut v = vec![build_cal_plain(spec)?];
+    if has_settlement || crate::util::hash_str(&spec.describe().to_string()) % 4 == 0 {
+        v.push(AnyCal::Wrapped(match build_cal_plain(spec)? {
+            AnyCal::Cal(c) => CalType::Cal(c),
+            AnyCal::Union(c) => CalType::UnionCal(c),
+            AnyCal::Named(c) => CalType::NamedCal(c),
+            AnyCal::Wrapped(c) => c,
+        }));
+    }
+    Some(v)
+}
+
 pub fn build_cal_plain(spec: &CalSpec) -> Option<AnyCal> {
     match spec {
         CalSpec::Builtin(_) | CalSpec::Custom { .. } => simple_cal(spec).map(AnyCal::Cal),
